@@ -31,6 +31,8 @@ type Program struct {
 	Mode  string `json:"mode"` // A (conflict-free, model) | B (anything) | D (backends must agree)
 	// NoR30 disables the by-construction exclusion of known finding C06-R30 (only set by its replay)
 	NoR30 bool `json:"no_r30_exclusion,omitempty"`
+	// NoR43 disables the classification of known finding C06-R43 (only set by its replay)
+	NoR43 bool `json:"no_r43_classification,omitempty"`
 	// RenameFails makes every backend rename fail with EXDEV ("invalid cross-device link", as for Docker volumes) so that
 	// Move takes its copy-and-remove path
 	RenameFails bool `json:"rename_fails_exdev,omitempty"`
@@ -458,6 +460,13 @@ func checkProgramB(t ev.T, test string, p Program) {
 						if strings.HasPrefix(c.Op, "Copy") {
 							src := path.Clean("w/" + ra)
 							if rel == src || strings.HasPrefix(rel, src+"/") {
+								// known finding C06-R43: the contents of a directory x (source spelled "x/.") copied into the parent
+								// of x while x has an entry of its own name: that entry's destination is x itself, the merge
+								// writes into the source
+								if _, inner := before[src+"/"+path.Base(src)]; !p.NoR43 && path.Base(c.A) == "." && path.Clean("w/"+rb) == path.Dir(src) && inner {
+									ev.Exclude("C06-R43 contents of x copied into the parent of x while x/x exists")
+									continue
+								}
 								ev.Fail(t, prop, test, p, "%s backend, call %d %s changed its source: %q was %s, now %s", kind, i, c, rel, was, orGone(now, still))
 							}
 						}
